@@ -467,7 +467,12 @@ func (s *LinearState) FindCachedRules(ctx *Context, event Map) (map[string]*Rule
 		} else {
 			rule, err := RuleFromMap(ctx, r)
 			if err != nil {
-				return nil, err
+				// AddFact accepts any map, so a "rule"
+				// property doesn't have to hold a valid
+				// rule.  Not a reason to fail the event
+				// for all the other rules.
+				Log(ERROR, ctx, "LinearState.FindCachedRules", "name", s.Name, "id", id, "error", err, "when", "RuleFromMap")
+				continue
 			}
 			acc[id] = rule
 			s.cachedRules[id] = rule
